@@ -145,7 +145,13 @@ def main():
              # three and more molecules, duplicated molecules, molecules of equal size, products side richer
              "CCO.CCO.CC(=O)OC>>CC(=O)OCC", "CC(=O)Cl.OCC.NCC.CCBr>>CC(=O)OCC.CC(=O)NCC", "CCCO.CCCN.CCCS.CCCCl>>CCCOCCC",
              "CCO>>CC(=O)OCC.CC(=O)OCC.CCOC(C)=O", "c1ccccc1Br.c1ccccc1Br.OB(O)c1ccccc1>>c1ccc(cc1)-c1ccccc1",
-             "CC(C)O.CC(C)N.CC(C)S>>CC(C)OC(C)C.N", "CCN.CCN.CCN.CCN>>CCNCC", "OCC.OCC>>CCOCC.CCOCC.O"]
+             "CC(C)O.CC(C)N.CC(C)S>>CC(C)OC(C)C.N", "CCN.CCN.CCN.CCN>>CCNCC", "OCC.OCC>>CCOCC.CCOCC.O",
+             # one very hard molecule pair next to cheap ones: RDKit cancels the pairwise search inside the job
+             # (different pentacyclic skeletons), the job itself succeeds
+             "CC(=C)C1CCC2(CCC3(C)C(CCC4C5(C)CCC(OC(C)=O)C(C)(C)C5CCC34C)C12)C(O)=O.CCCCCCCCN>>"
+             "CCCCCCCCNC(=O)C12CCC(C)(C)CC1C1=CCC3C4(C)CCC(O)C(C)(C)C4CCC3(C)C1(C)CC2",
+             "CC(=C)C1CCC2(CCC3(C)C(CCC4C5(C)CCC(OC(C)=O)C(C)(C)C5CCC34C)C12)C(O)=O.CCCCCCCCN.CCO>>"
+             "CCCCCCCCNC(=O)C12CCC(C)(C)CC1C1=CCC3C4(C)CCC(O)C(C)(C)C4CCC3(C)C1(C)CC2"]
     nb, bsz = (4, 24) if tier == "quick" else (40, 40)
     for b in range(nb):
         rx = list(fixed) + corpus.sample(pool, bsz, rng)
